@@ -46,11 +46,25 @@ def unguard(nf, t, env):
     return t
 
 
+def r1_bounds_codec(ctx, nf) -> None:
+    """forward CODEC of the two kinds of type-definition bound (also what C07 needs of the extension codec)"""
+    em = ctx.program.module(EXT)
+    for cname in ("ExplicitBound", "FromParamsBound"):
+        c = em.classes[cname]
+        probs, desc = codec.forward(nf, c)
+        k, m = c.find_method("_to_serial")
+        if not probs:
+            ctx.ok("C10.R1", c.qualname, desc)
+        for p in probs:
+            ctx.fail("C10.R1", c.qualname + (f".{p.field}" if p.field else ""), c.module.path, m.lineno, p.msg, m, expected=p.expected, found=p.found)
+
+
 def r1_codec(ctx, nf) -> None:
     prog = ctx.program
     em = prog.module(EXT)
     s = sym("self")
-    for cname in ("ExplicitBound", "FromParamsBound", "FixedHugr"):
+    r1_bounds_codec(ctx, nf)
+    for cname in ("FixedHugr",):
         c = em.classes[cname]
         probs, desc = codec.forward(nf, c)
         k, m = c.find_method("_to_serial")
